@@ -425,7 +425,8 @@ def run(chk):
         "release-profile behaviour (wrapping instead of panicking) is modelled (profile Release) but only the debug "
         "harness is run in the quick tier",
     ]
-    chk.prove(["theories/Regs/Properties.vo"], ["theories/Regs/Properties.v"])
+    chk.prove(["theories/Regs/Properties.vo", "theories/Lang/CoreLimitsProperties.vo", "theories/Lang/CoreExec.vo"],
+              ["theories/Regs/Properties.v", "theories/Lang/CoreLimitsProperties.v"])
     ok, out, chk.th = common.build_harness("debug")
     if not ok:
         chk.proof_breaks.append("harness does not build against /repo: " + out[-800:])
@@ -603,6 +604,57 @@ def run(chk):
             chk.violation({"family": fam, "size": n, "profile": "release", "program": src if len(src) < 6000 else src[:6000] + "...",
                            "expected": exp, "observed": {x: v.get(x) for x in ("status", "value", "class", "message", "exit")},
                            "what": "nested block scopes left by break / continue: neither the value of the small case nor a limit error"})
+    # (5) the compiled core (Lang/CoreLimits.v): an expression is refused exactly when it needs more registers than the frame
+    # has left, and statements are accepted separately. Release harness: only there does the parser reach these depths.
+    if ok:
+        import c01core
+        def nest_un(n):
+            return "let a = 1;\n" + "!" * n + "a;\n", 'core_case 10 [SDecl _ _ true "a" (ELit _ _ (LInt 1))] (%s)' % ("(EUn _ _ Not " * n + '(EVar _ _ "a")' + ")" * n)
+
+        def nest_compound(n):
+            return "let a = 1;\n" + "a += " * n + "1;\n", 'core_case 10 [SDecl _ _ true "a" (ELit _ _ (LInt 1))] (%s)' % (
+                '(ECompound _ _ Add "a" ' * n + "(ELit _ _ (LInt 1))" + ")" * n)
+
+        def nest_exp(n):
+            return "let a = 1;\n" + " ** ".join(["a"] * (n + 1)) + ";\n", 'core_case 10 [SDecl _ _ true "a" (ELit _ _ (LInt 1))] (chain (EVar _ _ "a") [%s])' % (
+                "; ".join('(TStarStar, EVar _ _ "a")' for _ in range(n)))
+
+        def many(k, n):
+            st = "!" * n + "a;\n"
+            return "let a = 1;\n" + st * k + "a;\n", 'core_case 10 (SDecl _ _ true "a" (ELit _ _ (LInt 1)) :: repeat (SExpr _ _ (%s)) %d) (EVar _ _ "a")' % (
+                "(EUn _ _ Not " * n + '(EVar _ _ "a")' + ")" * n, k)
+        ccases = []
+        for n in (1, 100, 200, 252, 253, 254, 255, 256, 300):
+            ccases.append(("un-%d" % n,) + nest_un(n))
+            ccases.append(("compound-%d" % n,) + nest_compound(n))
+        for n in (1, 60, 120, 125, 126, 127, 128, 129, 200):
+            ccases.append(("exp-%d" % n,) + nest_exp(n))
+        for k, n in ((300, 250), (50, 253), (50, 254)):
+            ccases.append(("many-%d-%d" % (k, n),) + many(k, n))
+        cres = common.run_programs(th_rel, [(nm, "", ts) for nm, ts, _ in ccases], mode="compile", tag="c10core", timeout=900)
+        rows = ";\n ".join("(%s)" % t for _, _, t in ccases)
+        body = ("From Coq Require Import String ZArith List.\nFrom TsrunV Require Import Lang.Ops Lang.Core Lang.PrattInst Lang.CoreExec Base.Render.\n"
+                "Import ListNotations.\nLocal Open Scope string_scope.\nLocal Open Scope Z_scope.\n"
+                "Definition verdict (s : string) : string := s.\n"
+                "Eval vm_compute in (lines (map (fun s => if String.eqb (substring 0 7 s) \"refused\" then \"refused\" else \"accepted\") [%s]))." % rows)
+        got, raw = common.run_cases_v("c10_core", body, timeout=900)
+        if got is None or len(got) != len(ccases):
+            chk.proof_breaks.append("Lang.CoreLimits cases do not evaluate: " + (raw or "")[-400:])
+        else:
+            for (nm, ts, term), m in zip(ccases, got):
+                v = cres.get(nm, {})
+                stats["programs"] += 1
+                if v.get("status") == "ok":
+                    impl = "accepted"
+                elif v.get("status") == "compile_error" and "registers" in (v.get("message") or ""):
+                    impl = "refused"
+                else:
+                    impl = "other:%s %s" % (v.get("status"), (v.get("message") or "")[:80])
+                if impl != m:
+                    chk.violation({"family": "core-registers", "case": nm, "program": ts if len(ts) < 3000 else ts[:3000] + "...",
+                                   "compiler": impl, "model": m,
+                                   "what": "the compiler accepts / refuses a construct of the core differently from the register need the model "
+                                           "proves exact (limits per construct, never cumulative)"})
     for e in chk.known:
         if e["class"] in known_hit:
             chk.known_finding(e)
